@@ -4,7 +4,7 @@
    nothing / an injected conflict on a conditional write / a crash before or after the access. *)
 From Coq Require Import List NArith Bool Arith.
 From Verif.Common Require Import Cas.
-From Verif.C19 Require Import Model ModelV Spec BlockLemmas Proofs Handles Quiescent.
+From Verif.C19 Require Import Model ModelV Spec BlockLemmas Count Debt Proofs Handles Quiescent Ledger.
 Import ListNotations.
 
 Notation sys_run := (@Cas.sys_run key value lopt key_eqb key_ltb lmatch (list (op * result))).
@@ -46,11 +46,10 @@ Theorem c19_returned_is_recorded : forall cf fx fy clients evs i l,
 Proof. exact completed_results_recorded. Qed.
 Print Assumptions c19_returned_is_recorded.
 
-(* Handle records agree with block records when nothing is in flight — PARTIAL: proved for the counting protocol
-   (Handles.v: increment handle by n -> CAS block adding exactly n -> else roll back n; CAS block releasing m ->
-   decrement m), for any number of clients, all interleavings, crashes.  Not proved: that the programs of
-   Model.v (closures) follow that protocol; that link is checked on every run by oracle (d) of Spec.v on the
-   implementation's own quiescent states, and the three theorems below show what happens when they do not. *)
+(* The counting protocol in isolation (Handles.v): increment handle by n -> CAS block adding exactly n -> else roll
+   back n; CAS block releasing m -> decrement m; any number of clients, all interleavings, crashes.  (Kept as the
+   readable abstract statement; the same facts are proved for the PROGRAMS below: c19_handle_agrees_quiescent and
+   c19_handle_never_undercounts.) *)
 Theorem c19_handle_agrees_quiescent_partial : forall n s, preach n s ->
   Forall (fun p => p = PIdle) (p_clients s) -> forall h c, p_hcnt s h c = p_alloc s h c.
 Proof. exact handle_agrees_quiescent. Qed.
@@ -94,3 +93,39 @@ Theorem c19_one_block_per_address : forall cf fx fy clients evs e1 e2 c b1 b2,
   bk_cidr b1 = bk_cidr b2 -> e1 = e2.
 Proof. exact reachable_one_block_per_cidr. Qed.
 Print Assumptions c19_one_block_per_address.
+
+(* ------------------------------------------------------------------------------------------------------------
+   T3 for the PROGRAMS (Debt.v, Ledger.v).  The fixed code: cf_count_requested = cf_aip_leak = cf_stale_cache =
+   false and releaseByHandle returns on a not-found delete (fy = true); fx arbitrary.  hcnt_of s h c is
+   handle h's count for block c in datastore s, alloc_of s h c the number of ordinals of block c owned by h.
+   wf_op: the addresses of a ReleaseIPs lie at or above the block's first address (the model's domain).
+   within_budget: no client is handed more than B conflict answers (injected or real) during the run and
+   B + 2 <= cf_retries, so that no roll-back is abandoned after cf_retries attempts (the Go code gives up there).
+   "No operation in flight, nobody crashed" = every client has completed its list of operations (any prefix of a
+   longer list is such a list). *)
+Theorem c19_handle_agrees_quiescent : forall cf fx,
+  cf_count_requested cf = false -> cf_aip_leak cf = false -> cf_stale_cache cf = false -> cf_bsize cf <> O ->
+  forall clients evs B,
+  Forall (fun hc => Forall (wf_op cf) (snd hc)) clients -> within_budget cf fx clients evs B ->
+  Forall (fun c => exists l, c = CRun (Ret l)) (sy_clients (sys_run (sys0 cf fx true clients) evs)) ->
+  forall h c, hcnt_of (sy_store (sys_run (sys0 cf fx true clients) evs)) h c =
+              alloc_of (sy_store (sys_run (sys0 cf fx true clients) evs)) h c.
+Proof. exact agrees_when_all_completed. Qed.
+Print Assumptions c19_handle_agrees_quiescent.
+
+(* ... and at EVERY reachable state of such a run (operations in flight, clients crashed): a handle never counts
+   fewer addresses of a block than the block records for it. *)
+Theorem c19_handle_never_undercounts : forall cf fx,
+  cf_count_requested cf = false -> cf_aip_leak cf = false -> cf_stale_cache cf = false -> cf_bsize cf <> O ->
+  forall clients evs B,
+  Forall (fun hc => Forall (wf_op cf) (snd hc)) clients -> within_budget cf fx clients evs B ->
+  forall h c, (alloc_of (sy_store (sys_run (sys0 cf fx true clients) evs)) h c <=
+               hcnt_of (sy_store (sys_run (sys0 cf fx true clients) evs)) h c)%N.
+Proof. exact never_undercounts. Qed.
+Print Assumptions c19_handle_never_undercounts.
+
+(* The pinned releaseByHandle (fy = false) violates both: a run in which every client completes, the block records
+   the address for handle 1 and the handle no longer exists (replayed on the real code: scripted case 3). *)
+Theorem c19_handle_agrees_refuted_releasebyhandle_notfound : w4_outcome false = (true, 0%N, 1%N).
+Proof. exact w4_refutes. Qed.
+Print Assumptions c19_handle_agrees_refuted_releasebyhandle_notfound.
